@@ -160,8 +160,8 @@ func runCheck(o *Options) int {
 		return fail(o, "no-contracts", "no contract is tagged with this property")
 	}
 	pkgset := map[string]bool{}
-	for _, c := range eng.contracts {
-		// load every package that carries contracts so that callee contracts resolve
+	for _, c := range sel {
+		// packages of the functions under contract; their dependencies come along
 		pkgset["./"+strings.TrimPrefix(strings.TrimPrefix(c.PkgPath, modulePath), "/")] = true
 	}
 	var pats []string
